@@ -29,7 +29,9 @@ class SimLoop(asyncio.SelectorEventLoop):
         # loop iteration later, as with a real thread pool (`await` on a future that is already done does not
         # suspend, so with the default every `await loop.run_in_executor(...)` is atomic — a window between a check
         # and a claim that straddles such an await cannot open)
-        self.executor_suspends = False
+        # VERIF_EXSUSP=1: diagnostic knob, turns it on for every harness that does not set it itself (not used by any
+        # registered command; some harnesses count loop iterations and report differences that are theirs)
+        self.executor_suspends = __import__('os').environ.get('VERIF_EXSUSP') == '1'
 
     # -- virtual clock ---------------------------------------------------------------------
     def time(self) -> float:
